@@ -334,5 +334,85 @@ pub fn run(ctx: &Ctx) {
             judge(&[elems], &[l], &format!("section order {:?}", so), loc);
         }));
     }
+    // G6: sequence numbers of different digit counts (numeric, not textual, order) and many instances
+    {
+        let seqs: Vec<usize> = vec![0, 2, 9, 10, 11, 99, 100, 101, 1000, 65_535, 4_294_967_295];
+        let n = seqs.len();
+        let sp = Space::new(&[n, n, n, 2]);
+        let s2 = sp.clone();
+        let seqs = &seqs;
+        ctx.run_family(Family::new("c11.sequence_numbers", sp.size(), format!("three signal instances of a PDU / three PDU instances of a FRAME with ALL ordered triples of distinct sequence numbers from {:?} (different digit counts: numeric order differs from text order)", seqs), move |i, loc| {
+            let c = s2.coords(i);
+            if c[0] == c[1] || c[1] == c[2] || c[0] == c[2] {
+                return;
+            }
+            let (a, b, d) = (seqs[c[0]], seqs[c[1]], seqs[c[2]]);
+            let elems = if c[3] == 0 {
+                vec![Elem::Pdu(pdu("P1", Desc::Absent, &[("S_UINT8", a), ("S_SINT16", b), ("S_FLOA32", d)])), Elem::Frame(frame("ID_1", "f", &[("P1", 0)], None))]
+            } else {
+                vec![Elem::Pdu(pdu("P1", Desc::Absent, &[("S_UINT8", 0)])), Elem::Pdu(pdu("P2", Desc::Absent, &[("S_SINT16", 0)])), Elem::Pdu(pdu("P3", Desc::Absent, &[("S_FLOA32", 0)])), Elem::Frame(frame("ID_1", "f", &[("P1", a), ("P2", b), ("P3", d)], None))]
+            };
+            judge(&[elems], &[Layout::default()], &format!("{} with sequence numbers ({}, {}, {}) in document order", if c[3] == 0 { "signal instances" } else { "PDU instances" }, a, b, d), loc);
+        }));
+        let counts: Vec<usize> = {
+            let mut v: Vec<usize> = (4..=34).collect();
+            v.extend([63, 64, 65, 100, 255, 256, 257, 1000]);
+            if ctx.tier == Tier::Thorough {
+                v.extend([4096, 20_000]);
+            }
+            v
+        };
+        let sp = Space::new(&[counts.len(), 3, 3]);
+        let s2 = sp.clone();
+        let counts = &counts;
+        ctx.run_family(Family::new("c11.many_instances", sp.size(), format!("N in {:?}: a PDU with N signal instances / a FRAME with N PDU instances / N frames each with its own PDU and a distinct (application, context) key; document order = ascending, descending or a stride permutation of the sequence numbers; sequence numbers 0.. / 5,15,25.. ", counts), move |i, loc| {
+            let c = s2.coords(i);
+            let n = counts[c[0]];
+            let order: Vec<usize> = match c[1] {
+                0 => (0..n).collect(),
+                1 => (0..n).rev().collect(),
+                _ => {
+                    // i -> i * k mod n with k coprime to n
+                    let mut k = 7;
+                    while gcd(k, n) != 1 {
+                        k += 2;
+                    }
+                    (0..n).map(|i| (i * k + 3) % n).collect()
+                }
+            };
+            let sigs = ["S_UINT8", "S_SINT16", "S_FLOA32", "S_BOOL", "S_STRG_UTF8", "S_RAWD", "S_UINT64", "NO_SUCH_SIGNAL", "S_FLOA16"];
+            let elems: Vec<Elem> = match c[2] {
+                0 => {
+                    let names: Vec<(&str, usize)> = order.iter().map(|r| (sigs[*r % sigs.len()], r * 10 + 5)).collect();
+                    vec![Elem::Pdu(pdu("P1", Desc::Text("many signals".into()), &names)), Elem::Frame(frame("ID_1", "f", &[("P1", 0)], None))]
+                }
+                1 => {
+                    let ids: Vec<String> = (0..n).map(|r| format!("P{}", r)).collect();
+                    let mut v: Vec<Elem> = (0..n).map(|r| Elem::Pdu(pdu(&ids[r], Desc::Absent, &[(sigs[r % sigs.len()], 0)]))).collect();
+                    let refs: Vec<(&str, usize)> = order.iter().map(|r| (ids[*r].as_str(), *r)).collect();
+                    v.push(Elem::Frame(frame("ID_1", "f", &refs, None)));
+                    v
+                }
+                _ => {
+                    let mut v: Vec<Elem> = vec![];
+                    for r in &order {
+                        let pid = format!("P{}", r);
+                        v.push(Elem::Pdu(pdu(&pid, Desc::Text(format!("pdu {}", r)), &[(sigs[r % sigs.len()], 0)])));
+                        v.push(Elem::Frame(frame(&format!("ID_{}", r), &format!("frame{}", r), &[(pid.as_str(), 0)], Some(manuf(Some(&format!("A{}", r % 50)), Some(&format!("C{}", r)), None, None)))));
+                    }
+                    v
+                }
+            };
+            judge(&[elems], &[Layout { indent: c[1] != 1, ..Layout::default() }], &format!("{} instances, order variant {}, shape {}", n, c[1], c[2]), loc);
+        }).chunk(1));
+    }
     cleanup_scratch();
+}
+
+fn gcd(a: usize, b: usize) -> usize {
+    if b == 0 {
+        a
+    } else {
+        gcd(b, a % b)
+    }
 }
